@@ -300,7 +300,7 @@ def _ret_set(ctx, b, mv=1):
     return {_sh(render(p.ret)) for p in ctx.walk(b, max_visits=mv).paths if p.end == "return"}
 
 
-@rule("OPT-MINLEN", ["C08", "C01"], floor=8)
+@rule("OPT-MINLEN", ["C08", "C01", "C16"], floor=8)
 def opt_minlen(ctx):
     """get_minimum_match_length under-approximates: 0 / own length / child's minimum; repeat family min * child
     minimum (never max); Sequence the sum; Choice the minimum over the branches."""
@@ -420,7 +420,7 @@ def opt_minlen(ctx):
     return out
 
 
-@rule("OPT-FIXLEN", ["C08", "C20", "C01"], floor=12)
+@rule("OPT-FIXLEN", ["C08", "C20", "C01", "C06", "C16"], floor=12)
 def opt_fixlen(ctx):
     """get_match_length is exact: Some(n) only when every match has length n (leaf constants; Atom len; repeat family
     min*len only under min==max; Capture = child; Sequence all-Some sum; Choice all branches equal)."""
